@@ -7,7 +7,7 @@ Separate Extraction
   Actions Sched.run_case Sched.construct
   NAdvance.n_advance Multistage.allocate Multistage.construct
   Binomial.optimal_extra_steps Binomial.optimal_steps_binomial Binomial.optimal_steps_mixed
-  Mixed.memo_warm Mixed.tabulate Mixed.tget
+  Mixed.memo Mixed.memo_warm Mixed.tabulate Mixed.tget
   RevSeq.get_opt_0_table RevSeq.get_opt_inf_table RevSeq.argmin RevSeq.mxrr RevSeq.revolve_top RevSeq.disk_revolve_top RevSeq.periodic_top
   HRevSeq.get_hopt_table HRevSeq.hrevolve HRevSeq.argmin RevConv.sequence BinomDef.beta
   ActVal.act_repr ActVal.act_parse ActVal.act_len ActVal.act_iter ActVal.act_mem.
